@@ -595,4 +595,32 @@ pub mod c06 {
     field_harness!(q_field_k2, 2, 2, [true, false, false]);
     field_harness!(t_field_k1, 1, 1, [false, false, false]);
     field_harness!(t_field_k3, 3, 1, [false, true, true]);
+    /// BufferData: BufferOp PkgLength BufferSize(narrowest integer of the data length) ByteList
+    macro_rules! bufferdata_harness {
+        ($name:ident, $n:expr, $unw:expr) => {
+            #[kani::proof]
+            #[kani::unwind($unw)]
+            pub fn $name() {
+                let data: [u8; $n] = kani::any();
+                let r: Rec<{ $n + 12 }> = Rec::of(&BufferData::new(data.to_vec()));
+                let mut body: Exp<{ $n + 8 }> = Exp::new();
+                ref_int(&mut body, $n as u64);
+                body.bytes(&data);
+                let e: Exp<{ $n + 12 }> = ref_pkg_object(&[0x11u8], &body);
+                verdicts! {
+                    "C06: Buffer PkgLength closes exactly on the end of the byte list": pkg_closes(&r, 1),
+                    "C06: Buffer = BufferOp PkgLength BufferSize ByteList": r.eq_bytes(&e.b, e.n),
+                }
+                kani::cover!(true, "REACHED");
+            }
+        };
+    }
+    bufferdata_harness!(q_bufferdata_0, 0, 20);
+    bufferdata_harness!(q_bufferdata_1, 1, 20);
+    bufferdata_harness!(q_bufferdata_3, 3, 24);
+    bufferdata_harness!(q_bufferdata_16, 16, 36);
+    bufferdata_harness!(q_bufferdata_256, 256, 280);
+    bufferdata_harness!(t_bufferdata_255, 255, 280);
+    bufferdata_harness!(t_bufferdata_57, 57, 80);
+    bufferdata_harness!(t_bufferdata_58, 58, 80);
 }
